@@ -4,6 +4,7 @@ Define the BroydenSolver class.
 Based on implementation in Scipy via OpenMDAO 0.8x with improvements based on NPSS solver.
 """
 import numpy as np
+from scipy.sparse import issparse
 
 from openmdao.recorders.recording_iteration_stack import Recording
 from openmdao.solvers.linesearch.backtracking import BoundsEnforceLS
@@ -306,7 +307,8 @@ class BroydenSolver(NonlinearSolver):
             self.xm = self.xm.astype(complex)
             self.fxm = self.fxm.astype(complex)
         elif np.iscomplexobj(self.xm):
-            self.Gm = np.ascontiguousarray(self.Gm.real)
+            # the inverse jacobian of a sparse assembled jacobian is a scipy sparse matrix
+            self.Gm = self.Gm.real if issparse(self.Gm) else np.ascontiguousarray(self.Gm.real)
             self.xm = np.ascontiguousarray(self.xm.real)
             self.fxm = np.ascontiguousarray(self.fxm.real)
             # the differences cached by the last (complex) solve feed the next Broyden update
